@@ -99,6 +99,7 @@ type CallPlan struct {
 	HErr          *ErrPlan // returned at the end of HProg (nil: success)
 	HPanic        *PanicPlan
 	KeepReceiving bool // bidi handler: keep calling Receive after a non-EOF error
+	CloseTwice    bool // server-stream client calls Close twice
 	panicAfterCtx bool
 	ReturnSendErr bool     // the handler returns the error of a failed Send (as handlers do)
 	RecoverErr    *ErrPlan // what the WithRecover function returns
